@@ -307,6 +307,9 @@ def _checker_check(ctx, modes, shards_quick=12, shards_thorough=14):
 def C01(ctx):
     """Verdict equals the predicate-graph reference semantics."""
     ctx.mc("checker", "MC_Checker.tla", "MC_Checker_thorough.cfg" if ctx.thorough else "MC_Checker.cfg", workers=12, timeout=3000)
+    if ctx.thorough:
+        # every labelled DAG on 4 nodes (543) x post-read placements x misbehaving node x collect_all: 157 k states
+        ctx.mc("checker_dag4", "MC_Checker.tla", "MC_Checker_dag4.cfg", workers=12, timeout=7200)
     _checker_check(ctx, ["exh", "dag4", "rand"])
     ctx.cov["rule"] = ("dag4: all 543 DAGs on 4 labelled nodes x post-read placements; exh: every node/edge encoding with <=3 nodes and <=2 (thorough 3) edges over ids 0..N with every "
                        "edge_start incl. the leaf marker x ~10 program variants (post-read placement, leaf kinds, failing "
@@ -319,6 +322,8 @@ def C03(ctx):
     """Post-state = pre-state overlaid with all mutations; deferral."""
     ctx.mc("overlay", "MC_Overlay.tla", "MC_Overlay_thorough.cfg" if ctx.thorough else "MC_Overlay.cfg", workers=12, timeout=3000)
     ctx.mc("checker", "MC_Checker.tla", "MC_Checker.cfg", workers=12, timeout=3000)
+    if ctx.thorough:
+        ctx.mc("checker_dag4", "MC_Checker.tla", "MC_Checker_dag4.cfg", workers=12, timeout=7200)   # DeferredIsDependents on all 4-node DAGs
     _checker_check(ctx, ["overlay", "dag4"])
     ctx.cov["rule"] = ("dag4: all 543 DAGs on 4 labelled nodes with a post-state read (of a mutated key) placed on each node "
                        "in turn - a descendant that runs too early starts without its ancestor's output and sees the "
